@@ -1,0 +1,18 @@
+package ecs
+
+// escapes forces its argument to be treated as escaping by the compiler's escape analysis.
+//
+// Component values are copied into archetype storage as raw bytes, which hides the data flow from
+// escape analysis. Without this, a component value holding pointers to local variables of the caller
+// (and the value itself) may stay on the caller's stack, and the copy in the archetype is left
+// pointing into a dead stack frame.
+func escapes(x any) {
+	if escapeDummy.b {
+		escapeDummy.x = x
+	}
+}
+
+var escapeDummy struct {
+	b bool
+	x any
+}
